@@ -99,13 +99,21 @@ def wrowsOfArcs (n : Nat) (arcs : List (Nat Ã— Nat Ã— Int)) : Array (List (Nat Ã
 
 def WGraph.ofRows (rows : Array (List (Nat Ã— Int))) : WGraph := âŸ¨rows.size, fun u => rows.getD u []âŸ©
 
-/-- Naive reachability oracle: `n` rounds of closure over a Boolean vector. -/
+/-- Naive reachability oracle: closure rounds over a Boolean array until nothing changes
+(at most `n` rounds). -/
 def reachSetB (g : Graph) (S : List Nat) : List Bool :=
-  let init := S.foldl (fun vis s => vis.set s true) (List.replicate g.n false)
-  let round (vis : List Bool) : List Bool :=
-    (List.range g.n).foldl (fun acc u =>
-      if (vis[u]?).getD false then (g.out u).foldl (fun a v => a.set v true) acc else acc) vis
-  (List.range g.n).foldl (fun vis _ => round vis) init
+  let init : Array Bool := S.foldl (fun vis s => vis.setIfInBounds s true) (Array.replicate g.n false)
+  let round (vis : Array Bool) : Array Bool Ã— Bool :=
+    (List.range g.n).foldl (fun (acc : Array Bool Ã— Bool) u =>
+      if acc.1.getD u false then
+        (g.out u).foldl (fun (a : Array Bool Ã— Bool) v =>
+          if a.1.getD v false then a else (a.1.setIfInBounds v true, true)) acc
+      else acc) (vis, false)
+  let rec go (fuel : Nat) (vis : Array Bool) : Array Bool :=
+    match fuel with
+    | 0 => vis
+    | fuel+1 => let r := round vis; if r.2 then go fuel r.1 else r.1
+  (go (g.n + 1) init).toList
 
 /-- Naive hop-distance oracle: frontier expansion, `none` = unreachable. -/
 def hopDistB (g : Graph) (S : List Nat) : List (Option Nat) :=
